@@ -68,6 +68,14 @@ class Data:
         self.w = w
         self.Xp = Xp if Xp is not None else X
         self.desc = desc or {}
+        self._X0 = X.copy() if isinstance(X, numpy.ndarray) else None
+
+    def restore(self):
+        """Configurations documented to write into X (copy_x=False,
+        copy_X=False) may do so: every operation starts from the original
+        bytes."""
+        if self._X0 is not None:
+            self.X[...] = self._X0
 
     def snapshot(self):
         return (U.C.ahash(self.X), U.C.ahash(self.y), U.C.ahash(self.w))
@@ -601,6 +609,48 @@ SPECS = [
     STransferTransformer(),
 ]
 BY_NAME = {s.name: s for s in SPECS}
+
+# fitted attributes that are part of "the model" (read with getattr, called
+# when callable)
+ATTRS = {
+    "KMeansL1L2": ("cluster_centers_", "labels_", "inertia_", "n_iter_"),
+    "ConstraintKMeans": ("cluster_centers_", "labels_", "inertia_", "n_iter_", "weights_"),
+    "PiecewiseRegressor": ("n_estimators_", "mapping_", "leaves_"),
+    "PiecewiseClassifier": ("n_estimators_", "mapping_", "leaves_", "classes_"),
+    "PiecewiseTreeRegressor": ("betas_", "leaves_index_", "n_features_in_"),
+    "DecisionTreeLogisticRegression": ("n_nodes_", "tree_depth_", "classes_", "get_leaves_index"),
+    "ClassifierAfterKMeans": ("labels_",),
+    "QuantileLinearRegression": ("coef_", "intercept_", "n_iter_"),
+    "ExtendedFeatures": ("n_output_features_", "n_input_features_", "get_feature_names_out"),
+    "TransformedTargetClassifier2": ("classes_",),
+    "IntervalRegressor": ("n_estimators_",),
+    "CategoriesToIntegers": ("_categories", "_fit_columns"),
+    "ApproximateNMFPredictor": (),
+    "PredictableTSNE": ("mean_", "inv_std_", "loss_"),
+}
+
+
+def observe_attrs(spec, est):
+    out = {}
+    for a in ATTRS.get(spec.name, ()):
+        try:
+            v = getattr(est, a)
+            if callable(v):
+                v = v()
+        except Exception as e:  # noqa: BLE001
+            out["attr:" + a] = ("raised", type(e).__name__, "")
+            continue
+        if isinstance(v, dict):
+            v = repr(sorted(v.items(), key=repr))
+        if isinstance(v, (list, tuple)):
+            try:
+                v = numpy.asarray(v)
+            except Exception:  # noqa: BLE001
+                v = repr(v)
+        if isinstance(v, str) or v is None:
+            v = numpy.array([repr(v)])
+        out["attr:" + a] = numpy.asarray(v)
+    return out
 
 
 def observe(c, spec, est, cfg, Xp):
